@@ -34,6 +34,10 @@ use ::core::convert::TryInto;
 
 use self::output_buffer::{InputWrapper, OutputBuffer};
 
+#[cfg(feature = "verif-hooks")]
+#[path = "core_verif.rs"]
+pub mod verif;
+
 #[cfg(feature = "serde")]
 use crate::serde::big_array::BigArray;
 #[cfg(feature = "serde")]
